@@ -560,6 +560,15 @@ def run(F, tier, res):
         'handlers::blame::<impl delta::StateMachine<\'_>>::blame_metadata_style': 'blame palette colours are parsed as 24-bit (existing behaviour)',
         'parse_style::<impl style::Style>::from_git_str': 'styles coming from git\'s own configuration/defaults are parsed as 24-bit (existing behaviour)',
     }
+    def _tc_frozen(q, depth=0):
+        """the frozen site itself, a closure of it, or a private helper extracted from it (every caller is frozen)"""
+        q0 = q.rsplit('::{closure', 1)[0]
+        if q in TC_CONST_OK or q0 in TC_CONST_OK:
+            return True
+        if depth >= 2:
+            return False
+        callers = {p_ for p_ in F.fn_bodies for _, c_ in F.calls(p_) if callee_of(c_) == q0 or (c_.get('resolved') or '') == q0}
+        return bool(callers) and all(_tc_frozen(p_, depth + 1) for p_ in callers)
     consumers = {}
     for q, b in F.fn_bodies.items():
         for nm in b['mir']['names']:
@@ -582,7 +591,7 @@ def run(F, tier, res):
             is_const = 'const' in a or any(rr[0] == 'const' for rr in roots) and not derived
             if derived and not is_const:
                 oktc += 1
-            elif q in TC_CONST_OK or q.rsplit('::{closure', 1)[0] in TC_CONST_OK:
+            elif _tc_frozen(q):
                 oktc += 1
             else:
                 res.violate('TRUECOLOR', 'fn=%s;callee=%s' % (q, r.split('::')[-1]), 'a style/colour parser is called with a constant colour depth instead of the computed true_color setting '
